@@ -300,8 +300,12 @@ func shallowKey(rv reflect.Value) interface{} {
 		if rv.IsNil() {
 			return J{"sl": nil}
 		}
-		// the slice header: identity and length (elements of a shared backing array may change)
-		return J{"sl": fmt.Sprintf("%p/%d", rv.Interface(), rv.Len())}
+		// the slice header (identity and length) and the elements it holds
+		out := make([]interface{}, rv.Len())
+		for i := range out {
+			out[i] = shallowKey(rv.Index(i))
+		}
+		return J{"sl": fmt.Sprintf("%p/%d", rv.Interface(), rv.Len()), "el": out}
 	}
 	return canonGoVal(rv)
 }
@@ -332,6 +336,12 @@ func kUnpack(c J) interface{} {
 	cfg, err := ucfg.NewFrom(buildValue(c["from"]), buildOpts(c["copts"])...)
 	if err != nil {
 		return J{"create": errKind(err)}
+	}
+	for _, m := range arr(c, "merges") {
+		mj := m.(map[string]interface{})
+		if err := cfg.Merge(buildValue(mj["b"]), buildOpts(mj["opts"])...); err != nil {
+			return J{"create": errKind(err)}
+		}
 	}
 	before := mustJSON(shallowKey(target.Elem()))
 	var arg interface{} = target.Interface()
